@@ -655,3 +655,6 @@ PROPS["C01"]["proofs"] = PROPS["C01"]["proofs"] + ["Bmc.Proofs.EndToEnd.WholeC01
 PROPS["C01"]["claim"] += (" WHOLE (Proofs/EndToEnd/WholeC01.lean: generated_session_then_commands): newV2Session AS TRANSLATED against the specification's BMC (typed) returns a session value whose keys, read the way "
                           "buildAndSend reads them (keysOfSession), are the BMC's own, and every command of ANY history sent on it by SendCommand AS TRANSLATED is accepted by that BMC — integrity check and decryption with "
                           "ITS OWN K1 / K2 — and answered with the handler's completion code.")
+PROPS["C06"]["proofs"] = PROPS["C06"]["proofs"] + ["Bmc.Proofs.EndToEnd.DatagramC06"]
+PROPS["C06"]["claim"] += (" generated_sessionless_datagram_parses (Proofs/EndToEnd/DatagramC06.lean): EVERY datagram the session-less SendCommand AS TRANSLATED hands to the transport (retransmissions included) parses "
+                          "under the reference parser as RMCP / null-session wrapper / checksum-valid IPMI message carrying exactly the command's NetFn, LUN, number, extension bytes and request data.")
